@@ -566,12 +566,110 @@ Proof.
     pose proof (M2 _ _ (bounded_ldiff n B S HB) Hs2). lra.
 Qed.
 
-(* the array version *)
-Lemma gn_apply_or_get n t1 t2 U :
-  bounded n U -> gn_get (gn_apply_or n t1 t2) U == gn_apply_or_cell n (gn_get t1) (gn_get t2) U.
-Proof. intros HU. unfold gn_apply_or. rewrite gn_get_table by exact HU. apply Qred_correct. Qed.
+(* ---- the loop of _apply_or computes, in every cell, the per-cell fold ---- *)
+Lemma gn_upd_length t k x : length (gn_upd t k x) = length t.
+Proof. revert k. induction t as [|y t IH]; intros [|k]; simpl; auto. Qed.
+Lemma gn_upd_same t k x d : (k < length t)%nat -> nth k (gn_upd t k x) d = x.
+Proof. revert k. induction t as [|y t IH]; intros [|k] H; simpl in *; try lia; auto. apply IH. lia. Qed.
+Lemma gn_upd_other t k j x d : j <> k -> nth j (gn_upd t k x) d = nth j t d.
+Proof. revert k j. induction t as [|y t IH]; intros [|k] [|j] H; simpl; auto; try congruence. Qed.
+
+Lemma gn_minfold_ext {A} (c : A -> Q) l a a' :
+  a == a' -> fold_left (fun acc S => Qmin (c S) acc) l a == fold_left (fun acc S => Qmin (c S) acc) l a'.
+Proof.
+  revert a a'. induction l as [|x l IH]; intros a a' E; simpl; [exact E|]. apply IH. rewrite E. reflexivity.
+Qed.
+
+Lemma gn_or_fold_cell t1 t2 P t U :
+  (N.to_nat U < length t)%nat ->
+  gn_get (fold_left (gn_apply_or_step t1 t2) P t) U ==
+  fold_left (fun acc p => Qmin (gn_get t1 (fst p) + gn_get t2 (snd p)) acc)
+            (filter (fun p => N.lor (fst p) (snd p) =? U)%N P) (gn_get t U).
+Proof.
+  revert t. induction P as [|p P IH]; intros t HU; simpl; [reflexivity|].
+  rewrite IH by (unfold gn_apply_or_step; rewrite gn_upd_length; exact HU).
+  destruct (N.eqb_spec (N.lor (fst p) (snd p)) U) as [E|E]; simpl.
+  - apply gn_minfold_ext. unfold gn_apply_or_step. rewrite E. unfold gn_get at 1.
+    rewrite gn_upd_same by exact HU. apply Qred_correct.
+  - apply gn_minfold_ext. unfold gn_apply_or_step, gn_get at 1. rewrite gn_upd_other; [reflexivity|].
+    intro H. apply E. apply N2Nat.inj. symmetry. exact H.
+Qed.
+
+Lemma gn_filter_flat_map {A B} (q : B -> bool) (f : A -> list B) l :
+  filter q (flat_map f l) = flat_map (fun x => filter q (f x)) l.
+Proof. induction l as [|x l IH]; simpl; [reflexivity|]. rewrite filter_app, IH. reflexivity. Qed.
+Lemma gn_filter_map {A B} (q : B -> bool) (g : A -> B) l : filter q (map g l) = map g (filter (fun x => q (g x)) l).
+Proof. induction l as [|x l IH]; simpl; [reflexivity|]. destruct (q (g x)); simpl; rewrite IH; reflexivity. Qed.
+Lemma gn_filter_filter {A} (p q : A -> bool) l : filter q (filter p l) = filter (fun x => p x && q x) l.
+Proof. induction l as [|x l IH]; simpl; [reflexivity|]. destruct (p x); simpl; [destruct (q x)|]; rewrite IH; reflexivity. Qed.
+Lemma gn_filter_none {A} (p : A -> bool) l : (forall x, In x l -> p x = false) -> filter p l = [].
+Proof.
+  induction l as [|x l IH]; intros H; simpl; [reflexivity|]. rewrite (H x (or_introl eq_refl)). apply IH.
+  intros y Hy. apply H. right. exact Hy.
+Qed.
+Lemma gn_filter_single {A} (p : A -> bool) l a :
+  NoDup l -> In a l -> (forall x, In x l -> (p x = true <-> x = a)) -> filter p l = [a].
+Proof.
+  induction l as [|x l IH]; intros Hnd Hin Hp; [destruct Hin|]. inversion Hnd as [|? ? Hx Hnd']; subst. simpl.
+  destruct Hin as [->|Hin].
+  - rewrite (proj2 (Hp a (or_introl eq_refl)) eq_refl). f_equal. apply gn_filter_none. intros y Hy.
+    destruct (p y) eqn:E; [|reflexivity]. apply (Hp y (or_intror Hy)) in E. subst. contradiction.
+  - destruct (p x) eqn:E.
+    + apply (Hp x (or_introl eq_refl)) in E. subst. contradiction.
+    + apply IH; auto. intros y Hy. apply Hp. right. exact Hy.
+Qed.
+Lemma gn_fold_left_map {A B C} (f : A -> B -> A) (g : C -> B) l a :
+  fold_left f (map g l) a = fold_left (fun acc x => f acc (g x)) l a.
+Proof. revert a. induction l as [|x l IH]; intros a; simpl; [reflexivity|]. apply IH. Qed.
+
+(* the partners T of S with S n T = 0 and S u T = U: exactly U - S when S is inside U, none otherwise *)
+Lemma gn_partner n S U :
+  bounded n U ->
+  filter (fun T => disjb S T && (N.lor S T =? U)%N) (alln n) = if sub S U then [N.ldiff U S] else [].
+Proof.
+  intros HU. destruct (sub S U) eqn:Hs.
+  - apply gn_filter_single; [apply NoDup_alln| apply in_alln; apply bounded_ldiff; exact HU|].
+    intros T _. rewrite andb_true_iff, N.eqb_eq, disjb_spec. rewrite sub_spec in Hs. split.
+    + intros [Hd E]. subst U. gn_bits. specialize (Hd i). destruct (tb S i); destruct (tb T i); simpl; auto;
+        try (specialize (Hd eq_refl); discriminate).
+    + intros ->. split.
+      * intros i Hi. rewrite tb_ldiff, Hi. apply andb_false_r.
+      * gn_bits. specialize (Hs i). destruct (tb S i); destruct (tb U i); simpl; auto; try (specialize (Hs eq_refl); discriminate).
+  - apply gn_filter_none. intros T _. apply andb_false_iff. right. apply N.eqb_neq. intro E. subst U.
+    rewrite sub_lor_l in Hs. discriminate.
+Qed.
+
+Lemma gn_or_pairs_cell n U :
+  bounded n U ->
+  filter (fun p => N.lor (fst p) (snd p) =? U)%N (gn_or_pairs n) =
+  map (fun S => (S, N.ldiff U S)) (filter (fun S => sub S U) (alln n)).
+Proof.
+  intros HU. unfold gn_or_pairs. rewrite gn_filter_flat_map.
+  assert (G : forall l,
+    flat_map (fun x => filter (fun p => N.lor (fst p) (snd p) =? U)%N (map (pair x) (filter (fun T => disjb x T) (alln n)))) l =
+    map (fun S => (S, N.ldiff U S)) (filter (fun S => sub S U) l)).
+  { induction l as [|S l IH]; simpl; [reflexivity|].
+    rewrite IH. rewrite gn_filter_map, gn_filter_filter. cbn [fst snd]. rewrite (gn_partner n S U HU).
+    destruct (sub S U); reflexivity. }
+  apply G.
+Qed.
+
 Lemma gn_apply_or_length n t1 t2 : length (gn_apply_or n t1 t2) = (2 ^ n)%nat.
-Proof. apply gn_table_length. Qed.
+Proof.
+  unfold gn_apply_or. generalize (gn_or_pairs n). intros P.
+  assert (H : forall t, length (fold_left (gn_apply_or_step t1 t2) P t) = length t).
+  { induction P as [|p P IH]; intros t; simpl; [reflexivity|]. rewrite IH. unfold gn_apply_or_step. apply gn_upd_length. }
+  rewrite H. apply gn_table_length.
+Qed.
+
+Theorem gn_apply_or_get n t1 t2 U :
+  bounded n U -> gn_get (gn_apply_or n t1 t2) U == gn_apply_or_cell n (gn_get t1) (gn_get t2) U.
+Proof.
+  intros HU. unfold gn_apply_or.
+  rewrite gn_or_fold_cell by (rewrite gn_table_length; apply gn_bounded_to_nat; exact HU).
+  rewrite (gn_or_pairs_cell n U HU), gn_fold_left_map. cbn [fst snd].
+  rewrite gn_get_table by exact HU. reflexivity.
+Qed.
 
 Lemma gn_apply_or_SAM0 n t1 t2 :
   gn_SAM0 n (gn_get t1) -> gn_SAM0 n (gn_get t2) -> gn_SAM0 n (gn_get (gn_apply_or n t1 t2)).
